@@ -16,6 +16,9 @@ PID = "C04"
 # mir_eval.key is also REGENERATED from the source (translate/scalars.py); Props/C04_KeyGen.lean proves the generated
 # definitions equal to the hand-written key model
 TRANSLATOR_PARTS = ["scalars_key", "defaults"]   # defaults: Props/C04_Defaults.lean (documented defaults, decide)
+# the event-metric glue (util._fast_hit_windows, util.match_events, onset / beat f_measure, segment.detection / deviation)
+# is REGENERATED too (translate/evglue.py -> MirGen/EvGlue.lean); Props/C04_GenGlue.lean proves it equal to the hand models
+TRANSLATOR_PARTS += ["evglue"]
 _here = os.path.dirname(os.path.abspath(__file__))
 _props = os.path.join(os.path.dirname(os.path.dirname(_here)), "lean", "MirProofs", "Props")
 LEAN_MODULES = sorted("MirProofs.Props." + os.path.basename(f)[:-5]
@@ -122,6 +125,84 @@ def suite_gen_key(rng, tier, shard, nshards):
 
 from core import Case  # noqa: E402
 SUITES["gen_scalar.key"] = suite_gen_key
+
+# ----------------------------------------------------------------------------------------
+# the event-metric glue as REGENERATED from the source (driver op `gen.evglue`, lean/MirGen/EvGlue.lean) vs the real
+# functions: exercises the translator's semantic assumptions of lean/MirModel/PyEvGlue.lean (argsort + searchsorted windows,
+# slices, the hit dict in insertion order + Hopcroft-Karp, Python float division, b[1:-1], outer differences / medians)
+import numpy as _np  # noqa: E402
+from fractions import Fraction as _Fr  # noqa: E402
+
+
+def _retarget_glue(case, fn):
+    info = dict(case.info or {}, op="gen.evglue", fn=fn) if isinstance(case.info, dict) else {"op": "gen.evglue", "fn": fn,
+                                                                                            "orig": case.info}
+    return Case("gen.evglue", [fn] + list(case.args), case.call, tol=case.tol, tag="gen " + (case.tag or fn), info=info,
+                nontrivial=case.nontrivial, post=case.post)
+
+
+def _event_lists(rng, tier):
+    """(ref, est, window) on the 1/32 lattice: unsorted, duplicated, empty, pairs exactly at the window"""
+    n = (260 if tier == "quick" else 4000)
+    for k in range(n):
+        w = rng.choice([_Fr(0), _Fr(1, 32), _Fr(1, 16), _Fr(1, 8), _Fr(1, 4), _Fr(1, 2), _Fr(-1, 8) if k % 29 == 0 else _Fr(1, 8)])
+        nr, ne = rng.choice([0, 1, 2, 3, 5, 8, 12]), rng.choice([0, 1, 2, 3, 5, 8, 12])
+        ref = [_Fr(rng.randint(0, 64), 32) for _ in range(nr)]
+        est = []
+        for _ in range(ne):
+            if ref and rng.random() < 0.7:
+                est.append(rng.choice(ref) + rng.choice([-1, 1, 0]) * (w + rng.choice([0, 0, _Fr(1, 32)])))
+            else:
+                est.append(_Fr(rng.randint(0, 64), 32))
+        if rng.random() < 0.5:
+            ref.sort()
+        if rng.random() < 0.5:
+            est.sort()
+        yield ref, est, w
+
+
+def suite_gen_evglue(rng, tier, shard, nshards):
+    """the translated definitions vs the real functions: util._fast_hit_windows (hit pairs compared as sets),
+    util.match_events (pairs; sizes only when the reference holds equal values, whose argsort order NumPy leaves open) on
+    unsorted / duplicated / empty event lists with pairs exactly at the window; onset.f_measure, beat.f_measure,
+    segment.detection, segment.deviation on the existing onset / beat / boundary streams."""
+    from mir_eval import util as U
+    for ref, est, w in _event_lists(rng, tier):
+        r, e = _np.array([float(x) for x in ref]), _np.array([float(x) for x in est])
+        info = {"op": "gen.evglue", "ref": [str(x) for x in ref], "est": [str(x) for x in est], "window": str(w)}
+
+        def hits(r=r, e=e, w=w):
+            a, b = U._fast_hit_windows(r, e, float(w))
+            return sorted([int(x), int(y)] for x, y in zip(a, b))
+        yield Case("gen.evglue", ["util._fast_hit_windows", ref, est, w], hits, tag="gen _fast_hit_windows",
+                   info=dict(info, fn="util._fast_hit_windows"), nontrivial=bool(ref and est),
+                   post=lambda m: m if not isinstance(m, list) else sorted([a, b] for a, b in zip(m[0], m[1])))
+        dup = len(set(ref)) != len(ref)
+        if dup:
+            yield Case("gen.evglue", ["util.match_events", ref, est, w],
+                       lambda r=r, e=e, w=w: len(U.match_events(r, e, float(w))), tag="gen match_events (size)",
+                       info=dict(info, fn="util.match_events"), nontrivial=bool(ref and est),
+                       post=lambda m: m if not isinstance(m, list) else len(m))
+        else:
+            yield Case("gen.evglue", ["util.match_events", ref, est, w],
+                       lambda r=r, e=e, w=w: [[int(a), int(b)] for a, b in U.match_events(r, e, float(w))],
+                       tag="gen match_events", info=dict(info, fn="util.match_events"), nontrivial=bool(ref and est))
+    lim = 200 if tier == "quick" else None
+    for key, fn in (("onset.onset.f_measure", "onset.f_measure"), ("onset.onset.exhaustive", "onset.f_measure"),
+                    ("beat.beat.f_measure", "beat.f_measure"), ("boundary.segment.detection", "segment.detection"),
+                    ("boundary.segment.deviation", "segment.deviation"), ("fixtures.onset", "onset.f_measure"),
+                    ("fixtures.beat", "beat.f_measure"), ("fixtures.segment_boundary", None)):
+        if key not in SUITES:
+            continue
+        for k, c in enumerate(SUITES[key](rng, tier, shard, nshards)):
+            if lim is not None and k >= lim:
+                break
+            f = fn or c.op
+            if c.op == f and f in ("onset.f_measure", "beat.f_measure", "segment.detection", "segment.deviation"):
+                yield _retarget_glue(c, f)
+
+
+SUITES["gen_evglue"] = suite_gen_evglue
 
 CHECKERS = {"documented_defaults": check_defaults}
 ORACLES = {"documented_defaults": gen_defaults}
